@@ -1,6 +1,7 @@
 import Esp.Model.Commands
 import Esp.Props.C14
 import Esp.Gen.Proto
+import Esp.Gen.Consts
 /-!
 # C15 — commands carry exactly the arguments the caller supplied
 
@@ -122,6 +123,70 @@ theorem c15_service_int (v : Ver) :
     · rename_i hg
       have : ¬(1 < v.major ∨ v.major = 1 ∧ 3 ≤ v.minor) := fun hc => hg (h.mpr hc)
       simp [this]
+
+/-! ## execute_service -/
+
+/-- **C15 (service arguments).**  A call that goes through sends exactly one argument per declared argument,
+in declaration order, each carrying the supplied value for that name in the field of its declared type — for every
+service signature, every data mapping and every API version. -/
+theorem c15_service_args {α : Type} (v : Ver) (data : String → Option α) (args : List SvcArg) (out : List (String × α))
+    (h : executeService v data args = some out) :
+    out.length = args.length ∧
+    ∀ i (hi : i < args.length), ∃ f x, serviceField v args[i].ty = some f ∧ data args[i].name = some x ∧ out[i]? = some (f, x) := by
+  induction args generalizing out with
+  | nil => simp [executeService] at h; subst h; simp
+  | cons a rest ih =>
+    simp only [executeService] at h
+    split at h
+    · rename_i x f r hx hf hr
+      simp only [Option.some.injEq] at h; subst h
+      obtain ⟨hl, hall⟩ := ih r hr
+      refine ⟨by simp [hl], ?_⟩
+      intro i hi
+      cases i with
+      | zero => exact ⟨f, x, hf, hx, by simp⟩
+      | succ j =>
+        have hj : j < rest.length := by simpa using hi
+        obtain ⟨f', x', h1, h2, h3⟩ := hall j hj
+        exact ⟨f', x', by simpa using h1, by simpa using h2, by simpa using h3⟩
+    · cases h
+
+/-- … and the call is refused exactly when a declared argument has no supplied value or a type the library does not know -/
+theorem c15_service_refused_iff {α : Type} (v : Ver) (data : String → Option α) (args : List SvcArg) :
+    executeService v data args = none ↔ ∃ a ∈ args, data a.name = none ∨ a.ty = .other := by
+  induction args with
+  | nil => simp [executeService]
+  | cons a rest ih =>
+    simp only [executeService, List.mem_cons, exists_eq_or_imp]
+    rw [← ih]
+    cases hd : data a.name <;> cases ht : a.ty <;> cases hr : executeService v data rest <;> simp [serviceField]
+
+/-- no two types share a field at one version (so the type is recoverable from the field) -/
+theorem c15_service_field_inj (v : Ver) (a b : ArgTy) (f : String) (ha : serviceField v a = some f) (hb : serviceField v b = some f) : a = b := by
+  cases a <;> cases b <;> simp [serviceField, serviceIntField] at ha hb <;> (try split at ha) <;> (try split at hb) <;>
+    first | rfl | (subst ha; exact absurd hb (by decide)) | simp_all
+
+def ArgTy.num : ArgTy → Option Nat
+  | .bool => some 0 | .int => some 1 | .float => some 2 | .string => some 3
+  | .boolArr => some 4 | .intArr => some 5 | .floatArr => some 6 | .stringArr => some 7 | .other => none
+
+/-- **C15 (the type → field map is the code's).**  Against the tables the translator extracts from `client.py` on every
+run: every non-integer type is written to the field `USER_SERVICE_MAP_SINGLE` / `USER_SERVICE_MAP_ARRAY` give for its
+number, the integer type is in neither map, and the integer rule's literals are `"int_"`, `"legacy_int"`,
+`APIVersion(1, 3)` compared with `>=`. -/
+theorem c15_service_map_tied (v : Ver) :
+    (∀ ty n, ty ≠ .int → ArgTy.num ty = some n →
+      serviceField v ty = (Gen.userServiceMapSingle ++ Gen.userServiceMapArray).lookup n) ∧
+    (Gen.userServiceMapSingle ++ Gen.userServiceMapArray).lookup 1 = none ∧
+    (Gen.userServiceMapSingle ++ Gen.userServiceMapArray).length = 7 ∧
+    Gen.serviceStrings = ["int_", "legacy_int"] ∧ Gen.serviceVersions = [[1, 3]] ∧ "GtE" ∈ Gen.serviceCompares := by
+  refine ⟨?_, by decide, by decide, by decide, by decide, by decide⟩
+  intro ty n hne hn
+  cases ty <;> simp [ArgTy.num] at hn hne <;> subst hn <;> simp [serviceField, Gen.userServiceMapSingle, Gen.userServiceMapArray, List.lookup]
+
+example : executeService ⟨1, 2⟩ (fun n => if n = "a" then some 5 else if n = "b" then some 7 else none)
+    [⟨"b", .int⟩, ⟨"a", .stringArr⟩, ⟨"b", .bool⟩] = some [("legacy_int", 7), ("string_array", 5), ("bool_", 7)] := by decide
+example : executeService ⟨1, 3⟩ (fun n => if n = "a" then some 5 else none) [⟨"a", .int⟩, ⟨"zz", .bool⟩] = none := by decide
 
 /-! ## the presence-flag convention against api.proto (generated tables) -/
 
